@@ -10,6 +10,7 @@ import (
 // Round-3 rules of C17 (written after seeds C17/7 and C17/8 were missed; C17/9 is reported by C17.keys).
 func c17Round3(c *Ctx) {
 	c17IdentityKeys(c)
+	c17RuntimeThresholds(c)
 	// (a) the node's stake claim is recomputed on every registration that is accepted: the thresholds depend on the
 	// node's roles AND on its set of runtimes, both of which an allowed update can change, so a renewal that only
 	// checks the existing claims leaves the recorded claim behind the registration.
@@ -144,4 +145,46 @@ func fixedLen(v ssa.Value) (int64, bool) {
 		return arr.Len(), true
 	}
 	return 0, false
+}
+
+// c17RuntimeThresholds (known finding F49): a node's stake claim is computed from the thresholds of the runtimes it is
+// registered for (StakeThresholdsForNode). A runtime update may change those thresholds (VerifyRuntimeUpdate does not
+// compare Staking.Thresholds) and registerRuntime does not recompute the claims of the nodes already registered for the
+// runtime, so after such an update the recorded claims are not the ones implied by the registrations until each node
+// happens to re-register. The rule: either the update verification looks at Staking.Thresholds, or the runtime
+// registration recomputes node claims.
+func c17RuntimeThresholds(c *Ctx) {
+	vr := c.needFn("C17.claims", "registry/api.VerifyRuntimeUpdate")
+	rr := c.needFn("C17.claims", pkRegApp+".(*Application).registerRuntime")
+	if vr == nil || rr == nil {
+		return
+	}
+	c.Analysed[fname(vr)] = true
+	compares := false
+	for _, b := range vr.Blocks {
+		for _, in := range b.Instrs {
+			if fa, ok := in.(*ssa.FieldAddr); ok && fieldName(fa.X.Type(), fa.Field) == "Thresholds" && strings.HasSuffix(vstr(fa.X), ".Staking") {
+				compares = true
+			}
+		}
+	}
+	refreshes := false
+	seen := map[*ssa.Function]bool{}
+	var visit func(f *ssa.Function, d int)
+	visit = func(f *ssa.Function, d int) {
+		if f == nil || seen[f] || d > 2 || f.Blocks == nil {
+			return
+		}
+		seen[f] = true
+		for _, call := range callsIn(f) {
+			if strings.HasSuffix(calleeName(call), "registry/api.StakeThresholdsForNode") {
+				refreshes = true
+			}
+			if cal := call.Common().StaticCallee(); cal != nil && strings.HasPrefix(fname(cal), pkRegApp+".") {
+				visit(cal, d+1)
+			}
+		}
+	}
+	visit(rr, 0)
+	c.Check(compares || refreshes, "C17.claims", fname(rr)+":a change of the runtime's stake thresholds reaches the claims of its nodes", c.P.Pos(vr.Pos()), "the update verification restricts Staking.Thresholds or the registration recomputes node claims", "a runtime update may change Staking.Thresholds (VerifyRuntimeUpdate never looks at them) and registerRuntime does not recompute the claims of the nodes registered for the runtime: the recorded node claims keep the old thresholds and differ from the ones implied by the registrations (the extra stake stays unlocked) until each node re-registers")
 }
